@@ -88,6 +88,12 @@ CHECKS.update({
     note="Trusted: TLC, ElementTree.tla, the classification of validator errors from their text. Known findings: STRICT encodes groups in structure order (TOLERANT: insertion order); STRICT accepts Z-segments but does not encode them.",
     ref="DESIGN.md §4 C05, §3.7"),
 })
+CHECKS.update({
+ "C18": dict(technique="TLA+ law of profile precedence (ProfileMC over Validate.tla) model-checked by TLC; profiles synthesised from real structures by single constraint edits and exercised through every creation path; creation observations judged by the TLC trace specification ProfileTrace and validation against the PROFILE's structure by ValidateTrace",
+    text="TLC checks, for every single edit (restate, tighten, require, forbid) of every node of a nested structure and all prescribed forests, that the verdicts under profile and standard differ only in errors naming the edited child, that restating changes nothing and that a forbidden child is reported. Per version (quick: 3, thorough: 40) message structures, the restated profile (build / parse / encode / validate digests equal with and without it) and one-edit profiles at segment, group, field, component and subcomponent level plus leaf datatype swaps are exercised through traversal, add_* and assignment under STRICT until the parent refuses (datatype carried by the child, cardinality enforced) and through parsing + validate(), whose errors TLC compares with those prescribed by the profile's own structure tables; the shipped ITI-21 profile; MessageProfileNotFound / LegacyMessageProfile.",
+    note="Trusted: TLC, Validate.tla, the synthesis of profiles by editing a private copy of the standard reference tree (same nested format as a compiled profile). Paths below MSH are not edited (the message creates MSH itself).",
+    ref="DESIGN.md §4 C18, §3.10"),
+})
 NOT_YET = {}
 def main():
     props = [json.loads(l) for l in open(os.path.join(HERE, "properties.jsonl"))]
